@@ -70,6 +70,11 @@ def random_plan(seed, family="fault-free"):
     procs = []
     for pid in range(nproc):
         script = []
+        # some processes reach their cache through a symlinked directory (a legal, non canonical path)
+        via = pick(f"via{pid}", [False, False, False, True])
+        if via:
+            files[f"cache/p{pid}"] = {"dir": True}
+            files[f"cvia/p{pid}"] = {"link": f"cache/p{pid}"}
         for j in range(pick(f"nops{pid}", [1, 1, 2, 3])):
             k = pick(f"file{pid}/{j}", list(range(npool)))
             op = pick(f"op{pid}/{j}", ["download", "download", "upload", "upload", "delete", "download_link", "upload_link"])
@@ -93,7 +98,8 @@ def random_plan(seed, family="fault-free"):
                 op = "upload_link"
             if isinstance(files.get(cache), dict) and files[cache]["link"] != f"pool/f{k}" and op == "download":
                 op = "download_link"   # links to other places only occur in link mode
-            script.append({"op": op, "cache": cache, "pool": f"pool/f{k}", "timeout": pick(f"to{pid}/{j}", [5, 8, 300])})
+            script.append({"op": op, "cache": cache.replace("cache/", "cvia/", 1) if via else cache, "pool": f"pool/f{k}",
+                           "timeout": pick(f"to{pid}/{j}", [5, 8, 300])})
         procs.append(script)
     return {"seed": seed, "engine": "locksim", "property": PROP, "family": family, "files": files, "procs": procs,
             "decisions": {}, "neutral": []}
